@@ -59,4 +59,25 @@ def ValidMatching (rev : Bool) (ps : List (Int × Int)) : Prop :=
 
 def sitePairs (ps : List Pr) : List (Int × Int) := ps.map fun p => (p.r.site, p.q.site)
 
+/-- pointwise relation between two lists of equal length -/
+inductive Forall2 {α β} (R : α → β → Prop) : List α → List β → Prop
+  | nil : Forall2 R [] []
+  | cons {a b as bs} : R a b → Forall2 R as bs → Forall2 R (a :: as) (b :: bs)
+
+/-- cluster `c` summarises the consecutive group `g` of input indel calls -/
+def Summarises (c : Call) (g : List Call) : Prop :=
+  g ≠ [] ∧
+  c.count = (g.map (·.count)).sum ∧
+  c.qids = g.flatMap (·.qids) ∧
+  (∀ m ∈ g, m.isIns = c.isIns ∧ m.chrom = c.chrom) ∧
+  (∀ m ∈ g, c.rStart ≤ m.rStart ∧ m.rStop ≤ c.rStop) ∧
+  (∃ m ∈ g, m.rStart = c.rStart) ∧ (∃ m ∈ g, m.rStop = c.rStop)
+
+/-- contract of `difflib.SequenceMatcher` as used by the comparer: `M a b` is the total size of
+    the matching blocks -/
+structure MatcherOK (M : List BPair → List BPair → Nat) : Prop where
+  le_min   : ∀ a b, M a b ≤ min a.length b.length
+  refl     : ∀ a, M a a = a.length
+  symm_pos : ∀ a b, 0 < M a b ↔ 0 < M b a
+
 end Coma.Spec
